@@ -722,7 +722,7 @@ class _SubtypeDistanceVisitor(TypeVisitor[int | None]):
 
         Uses the distance in the inheritance graph between the two types.
         For types with arguments, e.g. list or dict, the sum of the distances of the
-        arguments is returned.
+        arguments is added.
         For the UnionType, the minimum distance is to any of the arguments is returned.
         For the AnyType, the distance is always the any_distance.
 
@@ -733,14 +733,15 @@ class _SubtypeDistanceVisitor(TypeVisitor[int | None]):
             The distance between the two types or None if they are not connected.
         """
         if isinstance(self.subtype, Instance):
-            if supertype.args and self.subtype.args:
+            distance = self.graph.get_shortest_path_length(supertype.type, self.subtype.type)
+            if distance is not None and supertype.args and self.subtype.args:
                 distances = list(
                     map(self.graph.subtype_distance, supertype.args, self.subtype.args)
                 )
                 if any(dist is None for dist in distances):
                     return None
-                return sum(distances)  # type: ignore[arg-type]
-            return self.graph.get_shortest_path_length(supertype.type, self.subtype.type)
+                return distance + sum(distances)  # type: ignore[arg-type]
+            return distance
 
         if isinstance(self.subtype, UnionType):
             return self._min_distance_to_items(supertype, self.subtype)
